@@ -925,6 +925,8 @@ class Interp:
                 same = l is r
             elif isinstance(l, SEnumMember) and isinstance(r, SEnumMember):
                 same = l == r
+            elif not is_z3(l) and not is_z3(r) and not isinstance(l, (int, float, str, SStr, tuple)) and not isinstance(r, (int, float, str, SStr, tuple)):
+                same = l is r           # two model objects (frames, series, indexes ...): reference identity, as in Python
             else:
                 raise Unsupported("identity comparison of symbolic scalars", node)
             return same if isinstance(op, ast.Is) else not same
